@@ -14,6 +14,8 @@
   -- OPEN: channel (full duplex) mode and proxy/multi-device packets are not modelled.
 -/
 import XMT.KeysToy
+import XMT.KeysPickWait
+import XMT.RelaySplice
 namespace XMT.Props.C06
 open XMT XMT.Keys
 
@@ -127,6 +129,29 @@ theorem replyLost_desync :
   · rw [← syncedB_iff]; decide
   · rw [← intactB_iff]; decide
   · rw [← syncedB_iff]; decide
+
+/-- "The announcement was written — no error reached the sender — but the server never received it"
+(the connection died after the kernel accepted the bytes): the client side of a reply-lost exchange,
+the server untouched. Not a constructor of `Fault`; the end-to-end harness produces it as fault `q`. -/
+def xchgReqLost (c : Curve) (s : State) (send : Send) (fresh : Bytes) : State :=
+  { step c s (.xchg send [] fresh .replyLost) with server := s.server, obs := s.obs }
+
+set_option maxRecDepth 100000 in
+/-- **The mirror image of `replyLost_desync`** (known finding `requestLost:rekey`): after a re-key
+whose announcement was written but never reached the server both ends still agree — the client is on
+the old key, the new pair stays queued — but the NEXT successful exchange makes the client swap to
+the pair the server never saw: from then on the secrets differ and payloads are corrupted. So the
+clause "a re-key whose announcement was not delivered leaves the sender on the old key" holds only
+for a failure the sender is told about (`writeFail_reverts`). Same repair as the reply-lost cases: an
+acknowledged re-key. -/
+theorem requestLost_desync :
+    Synced (xchgReqLost toy (run toy (init toy kS) [.connect kA [9, 9] .ok]) (.rekey kB) kC) ∧
+    ¬ Synced (run toy (xchgReqLost toy (run toy (init toy kS) [.connect kA [9, 9] .ok]) (.rekey kB) kC) [xData]) ∧
+    ¬ Intact (run toy (xchgReqLost toy (run toy (init toy kS) [.connect kA [9, 9] .ok]) (.rekey kB) kC) [xData, xData]) := by
+  refine ⟨?_, ?_, ?_⟩
+  · rw [← syncedB_iff]; decide
+  · rw [← syncedB_iff]; decide
+  · rw [← intactB_iff]; decide
 
 set_option maxRecDepth 100000 in
 /-- If the exchange after the lost reply fails at the write, `keyCheckRevert` drops the queued
@@ -260,5 +285,73 @@ example :
 example : xorOp [1, 2, 3, 4, 5] [255, 1] = [254, 3, 252, 5, 250] := by decide
 /-- a secret shorter than the buffer keeps the stale tail -/
 example : copyInto [9, 9, 9, 9] [1, 2] = [1, 2, 9, 9] ∧ copyInto [9, 9] [1, 2, 3] = [1, 2] := by decide
+
+/-- **The Channel-mode helper announces what it queues** (`(*Session).pickWait`): the helper thread
+never touches the key in use; a KeyPair is queued only together with the packet that announces it
+(flagged as key material, carrying that pair's public key); an abandoned helper — whose packet would
+never be sent — changes nothing. So "a re-key whose announcement was not delivered leaves the sender
+on the old key" cannot be broken from this thread: there is no queued pair without an announcement
+in the send queue. Compared with the real function on every run (op `pickwait`). -/
+theorem pickWait_announces_what_it_queues (c : Curve) (cl : Client) (abandoned : Bool) (roll : Option Bytes) :
+    (pickWait c cl abandoned roll).2.keys = cl.keys ∧
+    (abandoned = true → pickWait c cl abandoned roll = (none, cl)) ∧
+    ((pickWait c cl abandoned roll).2.next ≠ cl.next →
+      ∃ p v, (pickWait c cl abandoned roll).1 = some p ∧ p.crypt = true ∧
+        (pickWait c cl abandoned roll).2.next = some v ∧ p.payload = v.pub) :=
+  let h := pickWait_spec c cl abandoned roll
+  ⟨h.1, h.2.2.1, h.2.2.2⟩
+
+/-! ## a payload that rides on another device's connection (tag relay): known finding
+`relaykeys:batch-spliced-after-encryption`
+
+`conn.resolve` encrypts the tagged device's next transmission with that device's key and
+`conn.process` merges it into the reply of the carrying connection with `writeUnpack`, which NESTS a
+single packet as one element but SPLICES the elements of a Multi container. Model: XMT/RelaySplice.lean
+on top of the batch model (C03) and the payload cipher. -/
+
+/-- one packet queued for the tagged device — the current code nests it: the proxy's unpack loop
+finds it, and the device's decryption returns exactly the packet queued, for every key and packet. -/
+theorem relay_single_delivers (key devA : Bytes) (p : Packet.Packet) (hp : Packet.WF p) (hpl : Batch.Plain p) :
+    RelaySplice.relay RelaySplice.currentArm key devA p.dev p = .ok [p] :=
+  RelaySplice.single_relay key devA p hp hpl
+
+/-- **two packets queued — the defect, on a kernel-checked witness** (two small packets, a 65-byte key
+1..65): the current code splices the encrypted batch, the reply announces two elements, the proxy's
+unpack loop fails with EOF (what the real proxy-side `receive` returns) and nothing is delivered;
+nesting the same encrypted batch as ONE element delivers both packets. -/
+theorem relay_splice_loses :
+    Batch.writeUnpack (RelaySplice.emptyReply RelaySplice.devA)
+      (RelaySplice.encryptFor RelaySplice.key65 (RelaySplice.container RelaySplice.devB [RelaySplice.p1, RelaySplice.p2]))
+        = .ok RelaySplice.splicedReply ∧
+    Flag.len RelaySplice.splicedReply.flags = 2 ∧
+    RelaySplice.unpackRest 2 RelaySplice.splicedReply.payload = .error .eof ∧
+    RelaySplice.unpack 2 RelaySplice.splicedReply.payload = .error .eof ∧
+    RelaySplice.relay RelaySplice.currentArm RelaySplice.key65 RelaySplice.devA RelaySplice.devB
+      (RelaySplice.container RelaySplice.devB [RelaySplice.p1, RelaySplice.p2]) = .error .eof ∧
+    RelaySplice.relay RelaySplice.nestInto RelaySplice.key65 RelaySplice.devA RelaySplice.devB
+      (RelaySplice.container RelaySplice.devB [RelaySplice.p1, RelaySplice.p2]) = .ok [RelaySplice.p1, RelaySplice.p2] :=
+  RelaySplice.splice_loses_witness
+
+/-- …and in general: whenever the first key byte is non-zero, whatever the spliced reply parses as (if
+it parses at all) is not the batch that was queued — its first element's ID is the queued one XORed
+with the key byte. -/
+theorem relay_splice_never_delivers (k : UInt8) (ks : Bytes) (hk : k ≠ 0) (devA devB : Bytes) (p : Packet.Packet)
+    (tl : List Packet.Packet) (hl : (p :: tl).length ≤ Facts.fragMax) (got : List Packet.Packet) (rest : Bytes)
+    (h : RelaySplice.unpackRest
+          (Flag.len (RelaySplice.spliceInto (RelaySplice.emptyReply devA)
+            (RelaySplice.encryptFor (k :: ks) (RelaySplice.container devB (p :: tl)))).flags)
+          (RelaySplice.spliceInto (RelaySplice.emptyReply devA)
+            (RelaySplice.encryptFor (k :: ks) (RelaySplice.container devB (p :: tl)))).payload
+        = .ok (got, rest)) :
+    (∃ g gs, got = g :: gs ∧ g.id = k ^^^ p.id) ∧ got ≠ p :: tl :=
+  RelaySplice.splice_never_delivers k ks hk devA devB p tl hl got rest h
+
+/-- the repair shape: an encrypted batch nested as ONE element is delivered intact, for every key and
+every non-empty batch of well-formed packets. -/
+theorem relay_nest_delivers (key devA devB : Bytes) (ps : List Packet.Packet) (hps : ∀ p ∈ ps, Packet.WF p)
+    (hne : ps ≠ []) (hl : ps.length ≤ Facts.fragMax) (hd : devB.length = Facts.idSize)
+    (hz : devB.head? ≠ some 0) (hpay : (RelaySplice.elems ps).length ≤ Facts.maxSlice) :
+    RelaySplice.relay RelaySplice.nestInto key devA devB (RelaySplice.container devB ps) = .ok ps :=
+  RelaySplice.nest_relay key devA devB ps hps hne hl hd hz hpay
 
 end XMT.Props.C06
